@@ -298,6 +298,10 @@ def shaped_answer(text):
     return [row], keys
 
 
+class InjectedDriverError(Exception):
+    """Raised by the stand-in driver when a fault twin asks the k-th statement of an operation to fail."""
+
+
 class Hub:
     """Shared state of the stand-in: capture log, operation stack, responder."""
 
@@ -320,9 +324,12 @@ class Hub:
             ordinal = top[1].get('dry_n', 0) if top else 0
             if top:
                 top[1]['dry_n'] = ordinal + 1
-            d['captured'].append({'text': text, 'params': params, 'op': opname, 'ordinal': ordinal})
+            d['captured'].append({'text': text, 'params': params, 'op': opname, 'ordinal': ordinal, 'idx': d['idx']})
             i = d['idx']
             d['idx'] += 1
+            if d.get('fail_at') is not None and i == d['fail_at']:
+                # fault injection at the driver boundary: this statement fails (transient server error)
+                raise InjectedDriverError(f'injected failure of statement {i}')
             if i < len(d['answers']):
                 rows, keys = d['answers'][i]
             else:
